@@ -133,6 +133,10 @@ func useLoop(l *s2.Loop, pts []s2.Point, cells []s2.Cell) Ans {
 		a = append(a, b2u(l.ContainsCell(c)), b2u(l.IntersectsCell(c)))
 	}
 	a = append(a, b2u(l.IsEmpty()), b2u(l.IsFull()))
+	// Measures (Area, Centroid) and loop-to-loop relations are NOT part of this use: the property
+	// lists containment, bounds, edges and re-encoding, and the zero value Loop{} (which Decode
+	// accepts and reproduces) divides by zero in those methods with or without a Decode.
+	a = append(a, f64(l.TurningAngle()), b2u(l.IsNormalized()))
 	var buf bytes.Buffer
 	_ = l.Encode(&buf)
 	a = append(a, uint64(buf.Len()))
